@@ -34,6 +34,9 @@ def run(ctx, out, budget):
     rng = ctx.rng(0)
     n = bud(budget, 150, 18000)
     cases = [casgen.CasGen(rng, n_types=rng.randint(1, 6), n_fs=rng.randint(1, 12), xmi_safe=True).build() for _ in range(n)]
+    for g in cases:
+        if rng.random() < 0.2:   # features added to a type that already has an instance, after a first serialisation / typecheck
+            casgen.add_late_extension(g, rng, lambda h0: [{"op": "xmi.save", "h": h0}, {"op": "cas.typecheck", "h": h0}])
     sess = []
     for g in cases:
         h0 = g.views["_InitialView"]
